@@ -111,6 +111,10 @@ def keyword_texts():
         forms = {w, w.upper(), w.capitalize(), w[:1] + w[1:].upper()}
         for f in sorted(forms):
             out += [f, f"x {f} y\n", f"{f}'s", f"{f}1", f"{f}, {f}"]
+    # the contraction suffixes in every letter case, after every kind of host
+    for sfx in ("'s", "'S", "'re", "'RE", "'Re", "'rE", "'sx", "'res", "'r", "''s", "'s's"):
+        for host in ("we", "We", "WE", "boys", "Élan", "it", "nothing", "5", "1.5", "\"s\"", "(c)", "my", "x'", "rock'n'roll"):
+            out += [f"{host}{sfx}", f"{host}{sfx} 1\nsay {host}\n"]
     return out
 
 
